@@ -120,6 +120,13 @@ class Sink:
             return None
         return call
 
+    def __enter__(self) -> Any:
+        self._log.append(('%s.__enter__' % self._name,))
+        return self
+
+    def __exit__(self, *a: Any) -> None:
+        self._log.append(('%s.__exit__' % self._name,))
+
     def __eq__(self, o: object) -> bool:
         return isinstance(o, Sink) and o._name == self._name
 
@@ -687,6 +694,7 @@ def mk_worker(
     w._cache = {}
     w.most_recent_read_submit = None
     w.read_receipt_mutex = Sink('mutex', log)
+    w._mailbox_mutex = Sink('boxmutex', log)
     for m, (kind, owner, waiting, fresh) in enumerate(boxes):
         single, expected, got = BOX_KINDS[kind]
         b = WorkerMailbox.new_mailbox(None if single else expected)
